@@ -476,7 +476,7 @@ CHECKS = {
         "rule": ("plans: 2-8 tasks calling Allow / AllowN(n in 0..limit+2) / Check on 1-3 rate limiter instances (own rueidis client and connection(s) each, normally one "
                  "key prefix so identifiers are shared), 1-3 identifiers, limits 1..20, windows 50 ms..5 s of fake time crossed by scheduler ticks (tick sizes w/10, w/2, w, w+1 "
                  "put calls before, exactly on and after window boundaries), per-call WithCustomRateLimit in a third of the plans, ghost SCRIPT FLUSH; variants: connection "
-                 "faults and node restarts, context deadlines, a server clock offset. The real rateLimitScript runs in the model (lualite) from the EVAL/EVALSHA the client sends. "
+                 "faults (reset, eof, reset after execution, eof inside a reply, stall; on established connections), context deadlines, a server clock offset. The real rateLimitScript runs in the model (lualite) from the EVAL/EVALSHA the client sends. "
                  "oracle (a): per (key, ResetAtMs) the n of calls with n>0 that reported Allowed add up to <= the limit. oracle (b): the history of every key (<= 40 calls, Call/"
                  "Return = scheduler steps of start / observed return) is linearizable (porcupine v1.3.0, deterministic step budget instead of a wall-clock timeout; undecided = "
                  "not judged) against a sequential fixed-window counter written from the property text: windows are identified by ResetAtMs, Remaining == max(limit - units "
@@ -503,6 +503,8 @@ CHECKS = {
                         "the window ends and the limiter then admits more than the limit (variant skew-ahead shows it; the property does not quantify over clocks, so it is not a registered part)",
                         "plans with context deadlines run with GOMAXPROCS=1, no garbage collection during the run and a fresh buffer pool, and every deadline expires at an instant of its own, because "
                         "rueidislimiter keeps its command arguments in a sync.Pool buffer whose reuse is otherwise decided by the Go runtime",
+                        "every client uses one connection (PipelineMultiplex -1): with several, the wire of each command comes from util.FastRand, and callers woken by one delivery that "
+                        "send a follow-up command (NOSCRIPT, then EVAL) draw from the seeded stand-in in an order chosen by the Go runtime; connections of different limiter instances still interleave",
                         "porcupine verdict Unknown (step budget exhausted) is counted as not judged"],
     },
     "C41": {
